@@ -3,8 +3,11 @@
    from the pristine state), with the same external events handed in whenever the machine is idle: for every number of
    calls of uscxml_step() there is a number of calls of step() such that both end with the same configuration, history,
    top-level-final / finished flags, the same internal and external queue (events by name, in order) and the same
-   sequence of events handed to the selection -- history-free core, content of the transpiler's fragment, non-empty
-   names of the events handed in.
+   sequence of events handed to the selection -- content of the transpiler's fragment, non-empty names of the events
+   handed in.  Section Run is generic in the chart class: it takes the agreement of the history and entry-set passes
+   on legal engine states as hypotheses (those of CGenEquivMicro.Micro) and the legality of the engine's states from
+   LegalHistFastRun.v; Section CoreRun instantiates it for the history-free core and every variant of the template,
+   CGenEquivHistRun.v for charts with pseudo-states and the repaired template.
    One call of uscxml_step() is one step of the engine when it takes transitions; the emitted function loops back to
    DEQUEUE_EVENT where the engine returns: one more step of the engine for an event-less selection that found nothing,
    two for an internal event that enabled nothing (the engine selects event-less transitions once more; nothing is
@@ -23,11 +26,24 @@ Variable cv : cg_variant.
 Variable xv : ex_variant.
 Variable c : fchart.
 Hypothesis Htlf : cg_tlf_first_byte cv = false.
-Hypothesis H : wf_coreb c = true.
+Hypothesis Hfast : wf_fastb c = true.
 Hypothesis Hroot : fs_type (st c 0) = FCompound.
 Hypothesis Hc : chart_c c = true.
+(* the hypotheses of CGenEquivMicro.Micro: discharged for the core at the end of this file, for charts with
+   pseudo-states in CGenEquivHistRun.v *)
+Hypothesis Hanc_sorted : forall i, ssorted (fs_ancestors (st c i)).
+Hypothesis Hanc_bounded : forall i, bounded (nstates c) (fs_ancestors (st c i)).
+Hypothesis Hrem : forall cfg exitset hist, cremember cv c cfg exitset hist = fremember c cfg exitset hist.
+Variable OK : lstate -> Prop.
+Hypothesis HOK : forall l, StOK c l -> OK l.
+Hypothesis Hentry : forall l evn, OK l ->
+  let sel := cselect_all c (l_cfg l) evn in
+  let ex := cexitset c (l_cfg l) sel in
+  centry_set cv c (l_cfg l) ex (fremember c (l_cfg l) ex (l_hist l)) (ctargets c sel) sel =
+  fentry_set c (l_cfg l) ex (fremember c (l_cfg l) ex (l_hist l)) (ctargets c sel) sel.
+Hypothesis Hentry0 : forall hist, HistOK c hist ->
+  centry_set cv c [] [] hist (fs_completion (st c 0)) [] = fentry_set c [] [] hist (fs_completion (st c 0)) [].
 
-Let Hfast : wf_fastb c = true := wf_initb_histb c (wf_coreb_initb c H).
 Let WH : WFH c := wf_histb_sound c Hfast.
 
 Notation fstep := (fast_step xv c).
@@ -96,11 +112,8 @@ Proof.
   intros E. unfold fselect_and_step. cbn [upd_flags l_cfg]. rewrite (selection c Hc), E. reflexivity.
 Qed.
 
-Lemma legal_of_ok l : CfgOKH c l -> l_init l = true -> LegalCfg c (l_cfg l).
-Proof.
-  intros [(P & _)|(_ & [L _])] Hi; [rewrite (not_pristine l Hi) in P; discriminate|].
-  now apply (LegalCfgH_LegalCfg c WH).
-Qed.
+Lemma stok_of_ok l : CfgOKH c l -> l_init l = true -> StOK c l.
+Proof. intros [(P & _)|(_ & L)] Hi; [rewrite (not_pristine l Hi) in P; discriminate|exact L]. Qed.
 
 Lemma ok_step l y : CfgOKH c l -> CfgOKH c (fst (fst (fstep l y))).
 Proof. apply (fast_step_legal_history c xv Hfast Hroot). Qed.
@@ -172,7 +185,7 @@ Lemma fire_sync lc lf y x' y' ev :
   snd r1 = C_ERR_OK /\ exists lf1 y1, advance lf y lf1 y1 /\ sync (fst (fst r1)) (snd (fst r1)) lf1 y1.
 Proof.
   intros L Ok Hi Hcan R Est Hne. cbv zeta.
-  pose proof (cfire_sim cv xv c Htlf H Hc lc lf x' y' ev L R (legal_of_ok lf Ok Hi) Hne) as M. cbv zeta in M.
+  pose proof (cfire_sim cv xv c Htlf Hanc_sorted Hanc_bounded Hc Hrem OK Hentry lc lf x' y' ev L R (HOK lf (stok_of_ok lf Ok Hi)) Hne) as M. cbv zeta in M.
   pose proof (ok_step lf y Ok) as Ok1. rewrite Est in Ok1.
   destruct (fselect_and_step xv c lf y' ev) as [[l2 y2] rc2]. cbn [fst snd] in *.
   destruct M as (M1 & M2 & M3 & M4 & M5 & M6 & M7 & M8 & M9 & M10). subst rc2.
@@ -347,7 +360,9 @@ Proof.
   left. destruct M as [(P1 & P2 & P3)|(I1 & I2 & Sp & Q)].
   - (* the initial step *)
     rewrite P1. left.
-    pose proof (cinitial_sim cv xv c Htlf H Hroot Hc lc lf x y A B P3) as T. cbv zeta in T.
+    assert (HH : HistOK c (l_hist lc)).
+    { rewrite A2. destruct C as [(_ & _ & HHf)|(Hi & _)]; [exact HHf|]. rewrite (not_pristine lf Hi) in P2. discriminate. }
+    pose proof (cinitial_sim cv xv c Htlf Hanc_sorted Hanc_bounded Hc Hentry0 lc lf x y A B P3 HH) as T. cbv zeta in T.
     assert (Est : fstep lf y = (let '(l1, x1) := fmicrostep xv c lf (emit TMsB y) (fs_completion (st c 0)) [] [] true in (l1, x1, RC_MICROSTEPPED))).
     { unfold fast_step. now rewrite <- A4, <- A3, P2. }
     pose proof (ok_step lf y C) as Ok1. rewrite Est in Ok1.
@@ -425,8 +440,49 @@ Proof.
   - left. auto.
 Qed.
 
-Theorem crun_lemma n evs : Forall (fun e => e <> []) evs ->
+Theorem crun_generic n evs : Forall (fun e => e <> []) evs ->
   exists m, final_rel (crun_loop cv c n l_pristine cx_init evs) (frun m l_pristine x_init evs).
 Proof. intros Hev. apply run_sync; [apply sync_pristine|exact Hev]. Qed.
 
 End Run.
+
+(* ------------------------------------------------------------------ the history-free core: every variant of the template *)
+Section CoreRun.
+Variable cv : cg_variant.
+Variable xv : ex_variant.
+Variable c : fchart.
+Hypothesis Htlf : cg_tlf_first_byte cv = false.
+Hypothesis H : wf_coreb c = true.
+Hypothesis Hroot : fs_type (st c 0) = FCompound.
+Hypothesis Hc : chart_c c = true.
+
+Let Hfast : wf_fastb c = true := wf_initb_histb c (wf_coreb_initb c H).
+
+Theorem cfire_core lc lf x y ev :
+  lsame lc lf -> csim x y -> LegalCfg c (l_cfg lf) ->
+  cselect_all c (l_cfg lc) (option_map ev_name ev) <> [] ->
+  let r1 := cfire cv c lc x (cselect_all c (l_cfg lc) (option_map ev_name ev)) in
+  let r2 := fselect_and_step xv c lf y ev in
+  lsame (fst (fst r1)) (fst (fst r2)) /\ csim (snd (fst r1)) (snd (fst r2)) /\ snd r1 = C_ERR_OK /\ snd r2 = RC_MICROSTEPPED.
+Proof.
+  intros L R Ok Hne. cbv zeta.
+  destruct (cfire_sim cv xv c Htlf (core_anc_sorted c H) (core_anc_bounded c H) Hc (core_rem cv c H) (fun l => LegalCfg c (l_cfg l)) (core_entry cv c H)
+              lc lf x y ev L R Ok Hne) as (A & B & C & D & _). auto.
+Qed.
+
+Theorem step_sync_core lc x lf y : sync c lc x lf y ->
+  let r := cgen_step cv c lc x in step_rel xv c (fst (fst r)) (snd (fst r)) (snd r) lf y.
+Proof.
+  apply (step_sync cv xv c Htlf Hfast Hroot Hc (core_anc_sorted c H) (core_anc_bounded c H) (core_rem cv c H)
+           (fun l => LegalCfg c (l_cfg l)) (core_ok c H) (core_entry cv c H) (core_entry0 cv c H Hroot)).
+Qed.
+
+Theorem crun_lemma n evs : Forall (fun e => e <> []) evs ->
+  exists m, final_rel (crun_loop cv c n l_pristine cx_init evs)
+                      (run_loop c lstate (fast_step xv c) l_cfg m l_pristine x_init evs).
+Proof.
+  apply (crun_generic cv xv c Htlf Hfast Hroot Hc (core_anc_sorted c H) (core_anc_bounded c H) (core_rem cv c H)
+           (fun l => LegalCfg c (l_cfg l)) (core_ok c H) (core_entry cv c H) (core_entry0 cv c H Hroot)).
+Qed.
+
+End CoreRun.
